@@ -21,6 +21,7 @@ import (
 	"sort"
 	"sync"
 	"testing"
+	"time"
 
 	"verif/harness/rig/run"
 )
@@ -48,6 +49,20 @@ func (c *ctx) other(k *testKey, sameType bool, n int) *testKey {
 		}
 	}
 	return cand[n%len(cand)]
+}
+
+// shards: into how many replayable units the byte edits of one artefact of this key are split
+// (a function of tier and key kind only).
+func (c *ctx) shards(k *testKey) int {
+	q := map[string]int{"rsa3072": 6, "rsa2048": 3}[k.kind]
+	th := map[string]int{"rsa3072": 32, "rsa2048": 16, "secp256k1": 4, "ecdsa": 4, "ed25519": 3}[k.kind]
+	if !c.all {
+		th = q
+	}
+	if n := c.r.Pick(q, th); n > 1 {
+		return n
+	}
+	return 1
 }
 
 // unit is one replayable case (one artefact of one key under one family of edits).
@@ -86,15 +101,30 @@ func hx(b []byte) string {
 func (c *ctx) runUnits(units []*unit) {
 	sort.SliceStable(units, func(i, j int) bool { return units[i].cost > units[j].cost })
 	var mu sync.Mutex
+	type unitTime struct {
+		ID string  `json:"id"`
+		S  float64 `json:"seconds"`
+	}
+	var slow []unitTime
+	defer func() {
+		sort.Slice(slow, func(i, j int) bool { return slow[i].S > slow[j].S })
+		if len(slow) > 8 {
+			slow = slow[:8]
+		}
+		c.r.Extra("slowest_units", slow)
+	}()
 	run.Parallel(len(units), 0, func(i int) {
 		u := units[i]
 		if !c.r.Want(u.id) || c.r.TooMany() {
 			return
 		}
 		u.counts = map[string]int{}
+		t0 := time.Now()
 		u.fn(u)
+		el := time.Since(t0) // reporting only (scheduling diagnostics), never part of a verdict
 		mu.Lock()
 		defer mu.Unlock()
+		slow = append(slow, unitTime{u.id, el.Seconds()})
 		c.r.Eval(u.evals)
 		c.r.NontrivialN(u.nontr)
 		for k, v := range u.counts {
@@ -127,14 +157,13 @@ func TestC08(t *testing.T) {
 		kind string
 		n    int
 	}
-	specs := []spec{{"rsa3072", r.Pick(1, 2)}, {"rsa2048", r.Pick(1, 2)}, {"ed25519", r.Pick(3, 6)}, {"ecdsa", r.Pick(2, 4)}, {"secp256k1", r.Pick(2, 4)}}
+	specs := []spec{{"rsa3072", 1}, {"rsa2048", r.Pick(1, 2)}, {"ed25519", r.Pick(3, 6)}, {"ecdsa", r.Pick(2, 4)}, {"secp256k1", r.Pick(2, 4)}}
 	type slot struct {
 		kind string
 		idx  int
 	}
 	var slots []slot
-	for ki, s := range specs {
-		_ = ki
+	for _, s := range specs {
 		for i := 0; i < s.n; i++ {
 			slots = append(slots, slot{s.kind, i})
 		}
@@ -173,7 +202,17 @@ func TestC08(t *testing.T) {
 	units = append(units, c.bookUnits()...)
 	c.runUnits(units)
 
-	r.Exhaustive(true) // every position of every artefact listed in coverage.artefacts was edited
+	r.Exhaustive(true) // every byte position of every artefact listed in coverage.artefacts was edited
+	valueSet := "8 single-bit flips + 0x00 + 0xff + (+1) + (-1) per byte"
+	if c.all {
+		valueSet = "all 255 other values per byte (RSA private keys: the quick set)"
+	}
+	r.Extra("artefacts", map[string]any{
+		"per_key":          []string{"marshalled public key (protobuf and raw)", "marshalled private key", "2 signatures", "peer ID binary", "peer ID base58 text", "peer ID CIDv1 base32 text", "sealed envelopes: signed peer record, relay reservation voucher, registered test record, unregistered test record"},
+		"byte_edit_values": valueSet,
+		"other_edits":      "every truncation (prefix) and front chop (suffix), every single byte dropped, one byte inserted at every position, one byte appended; text forms: every character replaced by every printable ASCII character, dropped, inserted",
+		"field_edits":      "field removed / duplicated / reordered (all 24 orders) / unknown field added (6 kinds x 5 positions) / wire type changed / emptied; every subset of fields taken from 5 foreign envelopes (foreign key same type, foreign key other type, other payload, other domain, other payload type); foreign value duplicated before/after; edits inside the embedded PublicKey message; re-encoded payloads",
+	})
 	// path classes the check exists to exercise
 	for _, kt := range []string{"ed25519", "ecdsa", "secp256k1", "rsa"} {
 		r.Require("roundtrip_ok/"+kt, 1)
